@@ -94,6 +94,11 @@ impl HeaderInner {
         buf
     }
 
+    #[cfg(anydb_verif)]
+    pub fn verif_from_bytes(bytes: &[u8]) -> Result<Self> {
+        Self::from_bytes(bytes)
+    }
+
     fn from_bytes(bytes: &[u8]) -> Result<Self> {
         let len = bytes.len();
         if len < HEADER_OFFSET {
